@@ -23,7 +23,7 @@ ASSUMPTIONS = [
     "sorted-dict and cursor cut-point models in this file (DESIGN.md Appendix B5)",
     "structural walk reads BTree.root / node.elts / node.children as an optional witness; the deciding oracle is the model at the public API",
 ]
-REQUIRED = ["mon.step", "mon.tree_equals_model", "mon.structure_walk", "mon.frozen_refuses", "mon.frozen_fingerprint", "mon.cursor_op", "mon.exhaustive_orders"]
+REQUIRED = ["mon.delete_exact_refused", "mon.step", "mon.tree_equals_model", "mon.structure_walk", "mon.frozen_refuses", "mon.frozen_fingerprint", "mon.cursor_op", "mon.exhaustive_orders"]
 BUDGET = {"quick": 40.0, "thorough": 420.0}
 
 
@@ -187,13 +187,13 @@ def history(ctx, rng, steps):
         else:
             ops += ["set", "del", "del", "pop", "setdefault", "update", "popitem"]
         ops += ["freeze_clone"] if len(live) < 6 and rng.random() < 0.3 else []
-        ops += ["cursor_new", "cursor_op", "cursor_op", "cursor_op", "cursor_close", "clear", "iter_mutate", "delete_exact", "del_missing", "cursor_boundary_drill"] if rng.random() < 0.5 else []
+        ops += ["cursor_new", "cursor_op", "cursor_op", "cursor_op", "cursor_close", "clear", "iter_mutate", "delete_exact", "delete_exact_mismatch", "del_missing", "cursor_boundary_drill"] if rng.random() < 0.5 else []
         op = rng.choice(ops)
         k = rng.choice(universe)
         trace.append((op, str(k) if names else k))
         try:
             tr, m = lv.tree, lv.model
-            if kind == "set" and op in ("get", "pop", "popitem", "setdefault", "update", "delete_exact"):
+            if kind == "set" and op in ("get", "pop", "popitem", "setdefault", "update", "delete_exact", "delete_exact_mismatch"):
                 op = rng.choice(("set", "del"))
             if op == "set":
                 val[0] += 1
@@ -313,6 +313,17 @@ def history(ctx, rng, steps):
                         ctx.violation(f"btree-delete_exact-wrong-element:{tag}", "", case)
                         return
                     del m[kk]
+            elif op == "delete_exact_mismatch":
+                # an element that is not the stored one (same key, other object) or whose key is absent: refused with ValueError,
+                # nothing changes -- and the tree is still a well-formed B-tree afterwards (the descent rebalances as it goes)
+                if m and kind == "dict":
+                    kk = rng.choice(list(m)) if rng.random() < 0.6 else rng.choice(universe)
+                    try:
+                        tr.delete_exact(dns.btree.KV(kk, "not-the-stored-element"))
+                        ctx.violation(f"btree-delete_exact-accepted-foreign-element:{tag}", str(kk), case)
+                        return
+                    except ValueError:
+                        ctx.count("mon.delete_exact_refused")
             elif op == "freeze_clone":
                 lv.tree.make_immutable()
                 lv.frozen = True
